@@ -251,7 +251,7 @@ func c18Menu(full bool) []c18Op {
 		{"AdvanceLine", 0},
 		{"Save", 1}, {"SetPosition", 0}, {"SetPosition", 1},
 		{"SetPadding", 0}, {"SetPadding", 1}, {"SetPadding", 3},
-		{"AdvanceAndSetPadding", 1002}, {"AdvanceAndSetPadding", 2000},
+		{"AdvanceAndSetPadding", 1002}, {"AdvanceAndSetPadding", 2000}, {"AdvanceAndSetPadding", 2},
 		{"SkipSpaces", 0}, {"SkipBlankLines", 0}, {"ReadRune", 0}, {"PrecendingCharacter", 0},
 		{"Value", 0}, {"ValueSlot", 0}, {"ValueSlot", 1}, {"ValueAll", 0}, {"Match", 0}, {"FindSubMatch", 0}, {"ResetPosition", 0},
 	}
@@ -815,7 +815,7 @@ func runC18(r *core.Run) {
 		if p > 40 && p%16 > 1 && p%16 < 15 && r.Quick() {
 			continue // quick: every width up to 40, then the widths around every multiple of 16
 		}
-		ladderMenu = []c18Op{{"SetPadding", p}, {"AdvanceAndSetPadding", 1000 + p}, {"PeekLine", 0}, {"Advance", 1}, {"Advance", -3}, {"Advance", -1},
+		ladderMenu = []c18Op{{"SetPadding", p}, {"AdvanceAndSetPadding", 1000 + p}, {"AdvanceAndSetPadding", p}, {"PeekLine", 0}, {"Advance", 1}, {"Advance", -3}, {"Advance", -1},
 			{"Save", 1}, {"SetPosition", 1}, {"ValueSlot", 1}, {"ValueAll", 0}, {"FindClosure", 6}}
 		envs := mkReaders(ladderSrcs)
 		envs = append(envs, mkBlocks(ladderSrcs[:2], 2, []int{p})...)
